@@ -71,6 +71,16 @@ type qpattern struct {
 	neg    bool  // index is offset - binder
 }
 
+func addSummands(t *Term, out *[]*Term) {
+	if t.Op == "+" {
+		for _, a := range t.Args {
+			addSummands(a, out)
+		}
+		return
+	}
+	*out = append(*out, t)
+}
+
 func collectPatterns(t *Term, binders map[string]bool, out *[]qpattern) {
 	check := func(ix *Term) {
 		if ix.S.K != SInt {
@@ -80,13 +90,30 @@ func collectPatterns(t *Term, binders map[string]bool, out *[]qpattern) {
 			*out = append(*out, qpattern{binder: ix.Name})
 			return
 		}
-		if ix.Op == "+" && len(ix.Args) == 2 {
-			a, b := ix.Args[0], ix.Args[1]
-			if b.Op == "var" && binders[b.Name] && !mentions(a, binders) {
-				*out = append(*out, qpattern{binder: b.Name, offset: a})
-			} else if a.Op == "var" && binders[a.Name] && !mentions(b, binders) {
-				*out = append(*out, qpattern{binder: a.Name, offset: b})
+		if ix.Op == "+" {
+			var sum []*Term
+			addSummands(ix, &sum)
+			bi := -1
+			for i, a := range sum {
+				if a.Op == "var" && binders[a.Name] {
+					if bi >= 0 {
+						return // two binders in one index: no single-binder pattern
+					}
+					bi = i
+				} else if mentions(a, binders) {
+					return
+				}
 			}
+			if bi >= 0 {
+				var off *Term = IntC(0)
+				for i, a := range sum {
+					if i != bi {
+						off = Add(off, a)
+					}
+				}
+				*out = append(*out, qpattern{binder: sum[bi].Name, offset: off})
+			}
+			return
 		}
 		if ix.Op == "-" && len(ix.Args) == 2 {
 			a, b := ix.Args[0], ix.Args[1]
@@ -108,6 +135,23 @@ func collectPatterns(t *Term, binders map[string]bool, out *[]qpattern) {
 	for _, a := range t.Args {
 		collectPatterns(a, binders, out)
 	}
+}
+
+func collectSkolems(t *Term, out map[string]*Term) {
+	if t.Op == "var" && strings.HasPrefix(t.Name, "sk.") && t.S.K == SInt {
+		out[t.Name] = t
+	}
+	for _, a := range t.Args {
+		collectSkolems(a, out)
+	}
+}
+
+func baseName(n string) string {
+	n = strings.TrimPrefix(n, "sk.")
+	if i := strings.Index(n, "!"); i >= 0 {
+		n = n[:i]
+	}
+	return n
 }
 
 func mentions(t *Term, names map[string]bool) bool {
@@ -134,11 +178,15 @@ func flattenAnd(ts []*Term) []*Term {
 	return out
 }
 
-const maxInst = 400
-
 // prepare: skolemise the goal, instantiate quantified hypotheses at the index
-// terms that occur; the quantified originals are kept as well.
+// terms that occur in the goal (goal-directed, two rounds, bounded).  Returns
+// the ground hypotheses (with instances), the quantified originals, the goal.
 func (E *Engine) prepare(hyps []*Term, goal *Term) ([]*Term, *Term) {
+	g, q, goal2 := E.prepare2(hyps, goal, nil)
+	return append(g, q...), goal2
+}
+
+func (E *Engine) prepare2(hyps []*Term, goal *Term, hints map[string][]*Term) (groundOut, quantOut []*Term, goalOut *Term) {
 	hyps = flattenAnd(hyps)
 	if goal != nil {
 		goal = E.skolemize(goal)
@@ -149,47 +197,63 @@ func (E *Engine) prepare(hyps []*Term, goal *Term) ([]*Term, *Term) {
 		if h.Op == "forall" {
 			quant = append(quant, h)
 		} else if h.Op == "=>" && h.Args[1].Op == "forall" {
-			// guard ==> forall: instantiate under the guard
 			q := h.Args[1]
 			quant = append(quant, &Term{Op: "forall", S: BoolS, Bound: q.Bound, Args: []*Term{Implies(h.Args[0], q.Args[0])}})
+		} else if h.Op == "=>" && h.Args[1].Op == "and" {
+			// guard ==> (A && forall ...): split
+			var rest []*Term
+			for _, c := range h.Args[1].Args {
+				if c.Op == "forall" {
+					quant = append(quant, &Term{Op: "forall", S: BoolS, Bound: c.Bound, Args: []*Term{Implies(h.Args[0], c.Args[0])}})
+				} else {
+					rest = append(rest, c)
+				}
+			}
+			ground = append(ground, Implies(h.Args[0], And(rest...)))
 		} else {
 			ground = append(ground, h)
 		}
 	}
+	ground = append(ground, E.recAxiomsFor(ground, goal)...)
 	if len(quant) == 0 {
-		return append(ground, E.recAxioms...), goal
+		return ground, nil, goal
 	}
 	out := append([]*Term(nil), ground...)
-	out = append(out, E.recAxioms...)
+	seen := map[string]bool{}
+	cands := map[string]*Term{}
+	b := map[string]int{}
+	if goal != nil {
+		indexTerms(goal, cands, b)
+	}
+	if len(cands) < 4 {
+		// arithmetic-only goal: take the smallest index terms of the ground hypotheses
+		extra := map[string]*Term{}
+		for _, h := range ground {
+			indexTerms(h, extra, b)
+		}
+		ks := sortedBySize(extra)
+		for i := 0; i < len(ks) && i < 12; i++ {
+			cands[ks[i]] = extra[ks[i]]
+		}
+	}
+	known := map[string]bool{}
+	skolems := map[string]*Term{}
+	if goal != nil {
+		collectSkolems(goal, skolems)
+	}
 	for round := 0; round < 2; round++ {
-		cands := map[string]*Term{}
-		b := map[string]int{}
-		for _, h := range out {
-			indexTerms(h, cands, b)
+		keys := sortedBySize(cands)
+		limit1, limit2 := 30, 8
+		if round == 1 {
+			limit1, limit2 = 14, 5
 		}
-		if goal != nil {
-			indexTerms(goal, cands, b)
+		if len(keys) > limit1 {
+			keys = keys[:limit1]
 		}
-		keys := make([]string, 0, len(cands))
-		for k := range cands {
-			keys = append(keys, k)
+		for _, k := range keys {
+			known[k] = true
 		}
-		sort.Strings(keys)
-		if len(keys) > 60 {
-			// prefer small terms
-			sort.Slice(keys, func(i, j int) bool {
-				if len(keys[i]) != len(keys[j]) {
-					return len(keys[i]) < len(keys[j])
-				}
-				return keys[i] < keys[j]
-			})
-			keys = keys[:60]
-		}
-		seen := map[string]bool{}
-		for _, h := range out {
-			seen[h.String()] = true
-		}
-		added := 0
+		var produced []*Term
 		for _, q := range quant {
 			binders := map[string]bool{}
 			for _, bv := range q.Bound {
@@ -197,37 +261,49 @@ func (E *Engine) prepare(hyps []*Term, goal *Term) ([]*Term, *Term) {
 			}
 			var pats []qpattern
 			collectPatterns(q.Args[0], binders, &pats)
-			// candidate values per binder
 			per := map[string]map[string]*Term{}
+			names := make([]string, 0, len(q.Bound))
+			okSorts := true
 			for _, bv := range q.Bound {
 				per[bv.Name] = map[string]*Term{}
+				names = append(names, bv.Name)
+				if bv.S.K != SInt {
+					okSorts = false
+				}
+			}
+			if !okSorts {
+				continue
 			}
 			for _, p := range pats {
 				for _, k := range keys {
-					t := cands[k]
-					v := t
+					v := cands[k]
 					if p.offset != nil {
-						v = Sub(t, p.offset)
+						v = Sub(v, p.offset)
 					}
 					per[p.binder][v.String()] = v
 				}
 			}
-			// cartesian product (bounded)
-			names := make([]string, 0, len(q.Bound))
-			for _, bv := range q.Bound {
-				if bv.S.K != SInt {
-					names = nil
-					break
+			prio := map[string][]string{}
+			for _, bn := range names {
+				for _, ht := range hints[baseName(bn)] {
+					per[bn][ht.String()] = ht
+					prio[bn] = append(prio[bn], ht.String())
 				}
-				names = append(names, bv.Name)
+				for sn, sv := range skolems {
+					per[bn][sv.String()] = sv
+					if baseName(sn) == baseName(bn) {
+						prio[bn] = append(prio[bn], sv.String())
+					}
+				}
 			}
-			if names == nil {
-				continue
+			lim := limit1
+			if len(names) > 1 {
+				lim = limit2
 			}
-			var rec func(i int, m map[string]*Term)
 			count := 0
+			var rec func(i int, m map[string]*Term)
 			rec = func(i int, m map[string]*Term) {
-				if count > maxInst/len(quant)+8 {
+				if count > 200 {
 					return
 				}
 				if i == len(names) {
@@ -239,36 +315,95 @@ func (E *Engine) prepare(hyps []*Term, goal *Term) ([]*Term, *Term) {
 					if !seen[s] {
 						seen[s] = true
 						out = append(out, inst)
-						added++
+						produced = append(produced, inst)
 						count++
 					}
 					return
 				}
-				vals := per[names[i]]
-				vk := make([]string, 0, len(vals))
-				for k := range vals {
-					vk = append(vk, k)
-				}
-				sort.Slice(vk, func(a, b int) bool {
-					if len(vk[a]) != len(vk[b]) {
-						return len(vk[a]) < len(vk[b])
+				vk := sortedBySize(per[names[i]])
+				if pr := prio[names[i]]; len(pr) > 0 {
+					inPr := map[string]bool{}
+					for _, k := range pr {
+						inPr[k] = true
 					}
-					return vk[a] < vk[b]
-				})
+					nv := append([]string(nil), pr...)
+					for _, k := range vk {
+						if !inPr[k] {
+							nv = append(nv, k)
+						}
+					}
+					vk = nv
+				}
+				if len(vk) > lim {
+					vk = vk[:lim]
+				}
 				for _, k := range vk {
-					m[names[i]] = vals[k]
+					m[names[i]] = per[names[i]][k]
 					rec(i+1, m)
 				}
 				delete(m, names[i])
 			}
 			rec(0, map[string]*Term{})
+			if E.debugQ {
+				qs := q.String()
+				if len(qs) > 260 {
+					qs = qs[:260]
+				}
+				fmt.Printf("  [inst round %d] %d instances for %s\n", round, count, qs)
+				for _, bn := range names {
+					vk := sortedBySize(per[bn])
+					if len(vk) > 6 {
+						vk = vk[:6]
+					}
+					fmt.Printf("      %s: prio=%d cands=%d e.g. %v\n", bn, len(prio[bn]), len(per[bn]), trunc(vk, 60))
+				}
+			}
 		}
-		if added == 0 {
+		if len(produced) == 0 {
+			break
+		}
+		// next round: index terms that are new in the produced instances
+		next := map[string]*Term{}
+		for _, inst := range produced {
+			indexTerms(inst, next, b)
+		}
+		cands = map[string]*Term{}
+		for k, v := range next {
+			if !known[k] {
+				cands[k] = v
+			}
+		}
+		out = append(out, E.recAxiomsFor(produced, nil)...)
+		if len(cands) == 0 {
 			break
 		}
 	}
-	out = append(out, quant...)
-	return out, goal
+	return out, quant, goal
+}
+
+func trunc(ss []string, n int) []string {
+	out := make([]string, len(ss))
+	for i, s := range ss {
+		if len(s) > n {
+			s = s[:n] + "…"
+		}
+		out[i] = s
+	}
+	return out
+}
+
+func sortedBySize(m map[string]*Term) []string {
+	ks := make([]string, 0, len(m))
+	for k := range m {
+		ks = append(ks, k)
+	}
+	sort.Slice(ks, func(i, j int) bool {
+		if len(ks[i]) != len(ks[j]) {
+			return len(ks[i]) < len(ks[j])
+		}
+		return ks[i] < ks[j]
+	})
+	return ks
 }
 
 func (E *Engine) negSkolemTop(h *Term) *Term {
@@ -336,36 +471,57 @@ func runSolver(name, script string, timeoutS int) (string, string) {
 	return runSolverCtx(context.Background(), name, script, timeoutS)
 }
 
-// race: z3-new first with a short limit, then all three in parallel.
-func race(script string, timeoutS int) (res, solver, output string, secs float64) {
+// race: z3-new first with a short limit on the ground script (or the full one
+// when there is none), then every solver on both scripts in parallel.  An
+// "unsat" from either script discharges the query ("unsat" of the ground part
+// implies "unsat" of the full one); "sat" is only believed for the full script.
+func race(script, ground string, timeoutS int) (res, solver, output string, secs float64) {
 	t0 := time.Now()
 	quick := 2
 	if timeoutS < quick {
 		quick = timeoutS
 	}
-	r, out := runSolver("z3-new", script, quick)
-	if r == "sat" || r == "unsat" {
+	first := script
+	if ground != "" {
+		first = ground
+	}
+	r, out := runSolver("z3-new", first, quick)
+	if r == "unsat" || (r == "sat" && ground == "") {
 		return r, "z3-new", out, time.Since(t0).Seconds()
 	}
 	ctx, cancel := context.WithCancel(context.Background())
 	defer cancel()
-	type ans struct{ r, s, o string }
-	ch := make(chan ans, len(solvers))
+	type ans struct {
+		r, s, o string
+		g       bool
+	}
+	n := 0
+	ch := make(chan ans, 8)
+	launch := func(name, sc string, isGround bool) {
+		n++
+		go func() {
+			r, o := runSolverCtx(ctx, name, sc, timeoutS)
+			ch <- ans{r, name, o, isGround}
+		}()
+	}
 	for _, sp := range solvers {
-		go func(n string) {
-			r, o := runSolverCtx(ctx, n, script, timeoutS)
-			ch <- ans{r, n, o}
-		}(sp.name)
+		launch(sp.name, script, false)
+	}
+	if ground != "" {
+		launch("z3-new", ground, true)
+		launch("z3", ground, true)
 	}
 	var last ans
 	outs := ""
-	for i := 0; i < len(solvers); i++ {
+	for i := 0; i < n; i++ {
 		a := <-ch
-		if a.r == "sat" || a.r == "unsat" {
+		if a.r == "unsat" || (a.r == "sat" && !a.g) {
 			return a.r, a.s, a.o, time.Since(t0).Seconds()
 		}
-		last = a
-		outs += fmt.Sprintf("[%s] %s\n", a.s, strings.TrimSpace(firstLines(a.o, 3)))
+		if !a.g {
+			last = a
+			outs += fmt.Sprintf("[%s] %s\n", a.s, strings.TrimSpace(firstLines(a.o, 3)))
+		}
 	}
 	return last.r, "none", outs, time.Since(t0).Seconds()
 }
@@ -419,11 +575,25 @@ func (E *Engine) Discharge(par int) {
 		return used
 	}
 	for _, j := range jobs {
-		hyps, goal := E.prepare(j.q.Hyps, j.q.Goal)
+		E.debugQ = false
+		if d := os.Getenv("GOVC_DEBUG_OBLIG"); d != "" && strings.Contains(j.o.Name, d) {
+			E.debugQ = true
+			fmt.Printf("[debug] %s path=%s hints=%d\n", j.o.Name, j.q.Path, len(j.q.Hints))
+		}
+		ground, quant, goal := E.prepare2(j.q.Hyps, j.q.Goal, j.q.Hints)
 		x := &Exec{E: E, tc: &TypeCtx{}}
 		x.tc.bv = j.o.BV
-		hyps = append(hyps, E.strConstFacts(x, strUsed(hyps, goal))...)
-		j.q.Script = Script(hyps, goal, true, j.q.Model)
+		all := append(append([]*Term(nil), ground...), quant...)
+		facts := E.strConstFacts(x, strUsed(all, goal))
+		ground = append(ground, facts...)
+		if len(quant) > 0 && goal != nil {
+			j.q.ScriptG = Script(ground, goal, false, nil)
+			if E.debugQ {
+				E.debugN++
+				os.WriteFile(fmt.Sprintf("/tmp/govc_debug_ground_%d.smt2", E.debugN), []byte(j.q.ScriptG), 0o644)
+			}
+		}
+		j.q.Script = Script(append(ground, quant...), goal, true, j.q.Model)
 		j.q.Hyps = nil // free memory
 	}
 	var wg sync.WaitGroup
@@ -438,7 +608,12 @@ func (E *Engine) Discharge(par int) {
 				j.q.Result, j.q.Solver, j.q.Output = "too-large", "none", fmt.Sprintf("script of %d bytes exceeds the cap; split the function or contract", len(j.q.Script))
 				return
 			}
-			j.q.Result, j.q.Solver, j.q.Output, j.q.Seconds = race(j.q.Script, E.timeoutS)
+			g := j.q.ScriptG
+			if len(g) > maxScript {
+				g = ""
+			}
+			j.q.Result, j.q.Solver, j.q.Output, j.q.Seconds = race(j.q.Script, g, E.timeoutS)
+			j.q.ScriptG = ""
 			if j.q.Result == "unsat" || (j.o.Kind == "cover" && j.q.Result == "sat") {
 				j.q.Output = ""
 				if !E.keepScripts {
